@@ -65,10 +65,12 @@ func init() {
 			"Not decided: AES-GCM itself; key decoding for each scheme.",
 		"crypto/aes, crypto/cipher, crypto/rand trusted", "DESIGN.md §3 R-BOUNDS, R-CALLEE; §4 C37",
 		func(c *Ctx) {
-			c.load("lib/keystore")
+			c.load("lib/keystore", "lib/crypto/secp256k1")
 			c.ruleKeystore()
+			c.rulePubKeySlice()
+			c.min("R-BOUNDS/pubkey", 2)
 			c.min("R-BOUNDS", 1)
-			c.min("R-CALLEE", 6)
+			c.min("R-CALLEE", 7)
 		})
 }
 
@@ -652,6 +654,18 @@ func (c *Ctx) ruleKeystore() {
 				whole = call.Call.Args[0] == ssa.Value(g.Params[0])
 			}
 		})
+		// decoding the decrypted bytes of a secp256k1 key cannot dereference nil: the checked constructor is used
+		if c.ssaPkg("lib/crypto/secp256k1") != nil {
+			if dec := c.fn("lib/crypto/secp256k1", "(*PrivateKey).Decode"); dec != nil {
+				unsafeCtor := false
+				eachInstr(dec, func(_ *ssa.BasicBlock, _ int, in ssa.Instruction) {
+					if call, ok := in.(*ssa.Call); ok && strings.HasSuffix(calleeName(&call.Call), ".ToECDSAUnsafe") {
+						unsafeCtor = true
+					}
+				})
+				c.ob("R-CALLEE", "secp256k1.PrivateKey.Decode:checked-scalar", dec.Pos(), !unsafeCtor, "ToECDSAUnsafe returns nil for a scalar that is zero or not below the curve order; Decode dereferences the result: a decrypted key file with such bytes crashes instead of failing")
+			}
+		}
 		c.ob("R-CALLEE", "gcmFromPassphrase:hashes-the-password-unchanged", g.Pos(), whole,
 			"the key must be the hash of the password exactly as given: trimming, folding or truncating it makes different passwords open the same key")
 	}
